@@ -8,6 +8,7 @@ import SonicModel.Lemmas.DomParseProof
 import SonicModel.Lemmas.NumSound
 import SonicModel.Lemmas.DomSound
 import SonicModel.Lemmas.DomPad
+import SonicModel.Lemmas.ChainDoc
 namespace Sonic.Thm.C03
 open Sonic Gen Impl Spec
 
@@ -67,6 +68,33 @@ theorem accepted_text_has_the_specification_tree (buf : Buf) (t : Json) (h : Dom
 theorem whole_input_parse_returns_the_tree_of_the_text (t : Buf) (tr : Json) (h : DomP.fromSlicePadded t = some tr) :
     docTree false t = some tr :=
   DomP.fromSlicePadded_tree t tr h
+
+/-- **… and its strings are the ones in-place decoding leaves in the buffer**: for the tree `tr` that the whole-input path
+    returns for a text `t`, the string literals of `t` in document order can be decoded in place one after the other in the
+    padded buffer (`StrIn.runMany`: the unchecked block decoder of src/util/string.rs, every run on what the runs before left),
+    none of the runs faults, and what stands at the literals' places in the final buffer are exactly the strings of `tr`
+    (`ChainDoc.strsOf`: member names and string values in document order) — the `&str`s of the DOM's nodes -/
+theorem whole_input_parse_strings_are_the_inplace_decodings (t : Buf) (tr : Json) (h : DomP.fromSlicePadded t = some tr) :
+    ∃ (is : List Nat) (ds : List (List UInt8 × Nat)) (memF : Buf),
+      StrIn.runMany false (StrIn.pad t) is = some (memF, ds.map (fun d => (d.1.length, d.2))) ∧
+      ds.map (·.1) = ChainDoc.strsOf tr ∧ is.length = ds.length ∧
+      ∀ n (hn : n < is.length) (hd : n < ds.length), StrBlock.bytes memF is[n] (is[n] + ds[n].1.length) = ds[n].1 := by
+  have hdoc := DomP.fromSlicePadded_tree t tr h
+  unfold docTree at hdoc
+  cases ht : tree false (fuelFor t) t (skipWs t 0) with
+  | none => rw [ht] at hdoc; cases hdoc
+  | some p =>
+    obtain ⟨j, e⟩ := p
+    rw [ht] at hdoc
+    simp only at hdoc
+    split at hdoc
+    · have hj : j = tr := Option.some.inj hdoc
+      subst hj
+      obtain ⟨is, ds, hc, hs, _⟩ := (ChainDoc.tree_chain false t (fuelFor t)).1 _ j e ht
+      have hc0 := ChainDoc.chain_weaken false t _ 0 is ds hc (Nat.zero_le _)
+      obtain ⟨memF, h1, _, _, h4⟩ := StrIn.runMany_spec false t is ds 0 (StrIn.pad t) hc0 rfl (fun _ _ => rfl)
+      exact ⟨is, ds, memF, h1, hs, ChainDoc.chain_length false t is ds 0 hc0, h4⟩
+    · cases hdoc
 
 /-- … value by value (any fuel that suffices for the grammar suffices for the parser) -/
 theorem dom_parser_on_wellformed_value (buf : Buf) (f w e : Nat) (h : Spec.value true f buf w = .ok e) :
